@@ -4,7 +4,7 @@
 From Coq Require Import String Ascii List NArith Arith Bool Lia.
 Import ListNotations.
 From ABNF Require Import Base Engine Spec EngineSound EngineComplete AbnfRead Registry GenTypes Loader Bundled
-     RfcSpec Tables Visit Visitor VisitorProps ReaderDeriv1 ReaderDeriv3.
+     RfcSpec Tables Visit Visitor VisitorProps ReaderDeriv1 ReaderDeriv3 ReaderDeriv.
 Local Open Scope list_scope.
 Opaque l_meta r_boot G.
 Arguments ERef r%N.
@@ -448,3 +448,356 @@ Section Replay.
     Qed.
   End Num.
 End Replay.
+
+Section Replay2.
+  Variable s : str.
+  Notation sk := (sk s).
+  Notation Mg := (M G s).
+  Notation MIg := (MI G s).
+
+  Lemma M_le e i j : Mg e i j -> i <= j.
+  Proof. intros H. destruct (M_D G s e i j H) as [ns HD]. exact (proj1 (D_bounds _ _ _ _ _ _ HD)). Qed.
+
+  Lemma M_element e i j : In e [ERef 19; ERef 28; ERef 29; ERef 30; ERef 31; ERef 32] -> Mg e i j ->
+    Mg (ERef 27) i j.
+  Proof. intros Hin H. apply (Mref s _ _ _ _ _ def_element). eapply M_alt; eauto. Qed.
+
+  (* a %b / %d / %x value: the "%" at i, the base letter at i+1 *)
+  Lemma M_num_val i c2 r1 j body : sk i = 37%N :: c2 :: r1 ->
+    (exists r nm l a b c d e dg, In (ERef r) [ERef 33; ERef 34; ERef 35] /\ G r = mkrule nm (val_body l a b c d e dg) /\
+       fold_cp c2 = fold_cp l /\
+       body = ECat [ERep a 1 None (ERef dg);
+                    ERep e 0 (Some 1)
+                      (EAlt false [ERep c 1 None (ECat [ELit false [46%N]; ERep b 1 None (ERef dg)]);
+                                   ECat [ELit false [45%N]; ERep d 1 None (ERef dg)]])]) ->
+    Mg body (i + 2) j -> Mg (ERef 31) i j.
+  Proof.
+    intros E (r & nm & l & a & b & c & d & e & dg & Hin & HG & Hf & ->) HB.
+    destruct (sk_cons s i _ _ E) as (_ & E' & _).
+    apply (Mref s _ _ _ _ _ def_num_val). apply (Mcat2 s _ _ i (i + 1)); [apply (M_sym s _ _ _ E)|].
+    eapply M_alt; [exact Hin|]. apply (Mref s _ _ _ _ _ HG). unfold val_body.
+    apply (Mcat2 s _ _ (i + 1) (i + 2)); [|exact HB].
+    replace (i + 2) with (i + 1 + 1) by lia. apply (M_chr s false _ _ _ _ (eq_sym E') Hf).
+  Qed.
+
+  Lemma terminal_M f i e r : terminal f (sk i) = Some (e, r) -> exists j, r = sk j /\ Mg (ERef 27) i j.
+  Proof.
+    destruct (sk i) as [|c r0] eqn:E; [discriminate|]. unfold terminal.
+    destruct (sk_cons s i _ _ E) as (_ & P0 & L0).
+    destruct (is_alpha c) eqn:Ha.
+    { cbn [read_name]. rewrite Ha. destruct (span is_namechar r0) as [n r1] eqn:Es.
+      destruct (span_split _ _ _ _ Es) as [Ev F]. intros H. injection H as _ <-. rewrite P0 in Ev.
+      pose proof (MI_class s _ _ (M_namechar s) n (i + 1) r1 Ev F ltac:(lia)) as HI.
+      exists (i + 1 + length n). split; [apply (sk_app_pos s _ _ _ Ev)|].
+      apply (M_element (ERef 19)); [cbn; auto|]. apply (Mref s _ _ _ _ _ def_rulename).
+      apply (Mcat2 s _ _ i (i + 1)); [apply (M_ALPHA s i c r0 E Ha)|apply (Mstar s _ _ _ _ _ HI)]. }
+    destruct (is DQUOTE c) eqn:Hq.
+    { rewrite <- E. destruct (quoted (sk i)) as [[v r1]|] eqn:Eq; [|discriminate].
+      destruct (quoted_M s i v r1 Eq) as (j & -> & HM). intros H. injection H as _ <-.
+      exists j. split; [reflexivity|]. apply (M_element (ERef 30)); [cbn; auto 10|].
+      apply (Mref s _ _ _ _ _ def_char_val). eapply M_alt; [left; reflexivity|].
+      apply (Mref s _ _ _ _ _ def_ci_string). apply (Mcat2 s _ _ i i); [apply Mopt0; lia|exact HM]. }
+    destruct (is (ch "<") c) eqn:Hl.
+    { apply N.eqb_eq in Hl. subst c. destruct (span is_pchar r0) as [v r1] eqn:Es.
+      destruct (span_split _ _ _ _ Es) as [Ev F]. destruct (eat (ch ">") r1) as [r2|] eqn:E2; [|discriminate].
+      apply eat_inv in E2. intros H. injection H as _ <-. rewrite P0 in Ev.
+      pose proof (MI_class s _ _ (M_pchar s) v (i + 1) r1 Ev F ltac:(lia)) as HI.
+      pose proof (sk_app_pos s _ _ _ Ev) as P2. set (k := i + 1 + length v) in *. rewrite P2 in E2.
+      destruct (sk_cons s k _ _ E2) as (_ & P3 & _).
+      exists (k + 1). split; [exact P3|]. apply (M_element (ERef 32)); [cbn; auto 10|].
+      apply (Mref s _ _ _ _ _ def_prose_val). apply (Mcat3 s _ _ _ i (i + 1) k).
+      - apply (M_sym s _ _ _ E).
+      - apply (Mstar s _ _ _ _ _ HI).
+      - apply (M_sym s _ _ _ E2). }
+    destruct (is (ch "%") c) eqn:Hp; [|discriminate]. apply N.eqb_eq in Hp. subst c.
+    destruct (eat_ci (ch "i") r0) as [r1|] eqn:Ei.
+    { destruct (eat_ci_inv _ _ _ Ei) as (c2 & -> & Hf).
+      destruct (sk_cons s (i + 1) _ _ (eq_sym P0)) as (_ & P1 & L1). rewrite P1.
+      destruct (quoted (sk (i + 1 + 1))) as [[v r2]|] eqn:Eq; [|discriminate].
+      destruct (quoted_M s _ v r2 Eq) as (j & -> & HM). intros H. injection H as _ <-.
+      exists j. split; [reflexivity|]. apply (M_element (ERef 30)); [cbn; auto 10|].
+      apply (Mref s _ _ _ _ _ def_char_val). eapply M_alt; [left; reflexivity|].
+      apply (Mref s _ _ _ _ _ def_ci_string). apply (Mcat2 s _ _ i (i + 1 + 1)); [|exact HM].
+      apply Mopt1. replace (i + 1 + 1) with (i + 2) by lia.
+      apply (M_chr2 s 37%N 105%N i _ _ _ E); [reflexivity|exact Hf]. }
+    destruct (eat_ci (ch "s") r0) as [r1|] eqn:Es.
+    { destruct (eat_ci_inv _ _ _ Es) as (c2 & -> & Hf).
+      destruct (sk_cons s (i + 1) _ _ (eq_sym P0)) as (_ & P1 & L1). rewrite P1.
+      destruct (quoted (sk (i + 1 + 1))) as [[v r2]|] eqn:Eq; [|discriminate].
+      destruct (quoted_M s _ v r2 Eq) as (j & -> & HM). intros H. injection H as _ <-.
+      exists j. split; [reflexivity|]. apply (M_element (ERef 30)); [cbn; auto 10|].
+      apply (Mref s _ _ _ _ _ def_char_val). eapply M_alt; [right; left; reflexivity|].
+      apply (Mref s _ _ _ _ _ def_cs_string). apply (Mcat2 s _ _ i (i + 1 + 1)); [|exact HM].
+      replace (i + 1 + 1) with (i + 2) by lia.
+      apply (M_chr2 s 37%N 115%N i _ _ _ E); [reflexivity|exact Hf]. }
+    assert (Hnum : forall bs dg l nm a b c d e0 r1 c2, r0 = c2 :: r1 -> fold_cp c2 = fold_cp l ->
+              cls_expr s (ERef dg) (isdig bs) -> forall rr, In (ERef rr) [ERef 33; ERef 34; ERef 35] ->
+              G rr = mkrule nm (val_body l a b c d e0 dg) ->
+              num_val f bs r1 = Some (e, r) -> exists j, r = sk j /\ Mg (ERef 27) i j).
+    { intros bs dg l nm a b c d e0 r1 c2 -> Hf Hd rr Hin HG H.
+      destruct (sk_cons s (i + 1) _ _ (eq_sym P0)) as (_ & P1 & L1). rewrite P1 in H.
+      destruct (num_val_M s bs dg a b c d e0 Hd f (i + 1 + 1) e r ltac:(lia) H) as (j & -> & HM).
+      exists j. split; [reflexivity|]. apply (M_element (ERef 31)); [cbn; auto 10|].
+      replace (i + 1 + 1) with (i + 2) in HM by lia.
+      eapply (M_num_val i c2 r1 j _ E); [|exact HM].
+      exists rr, nm, l, a, b, c, d, e0, dg. repeat split; auto. }
+    destruct (eat_ci (ch "b") r0) as [r1|] eqn:Eb.
+    { destruct (eat_ci_inv _ _ _ Eb) as (c2 & E2 & Hf). intros H.
+      apply (Hnum 2%N 8%N 98%N _ _ _ _ _ _ r1 c2 E2 Hf (M_dig2 s) 33%N ltac:(cbn; auto) def_bin_val H). }
+    destruct (eat_ci (ch "d") r0) as [r1|] eqn:Ed.
+    { destruct (eat_ci_inv _ _ _ Ed) as (c2 & E2 & Hf). intros H.
+      apply (Hnum 10%N 2%N 100%N _ _ _ _ _ _ r1 c2 E2 Hf (M_dig10 s) 34%N ltac:(cbn; auto) def_dec_val H). }
+    destruct (eat_ci (ch "x") r0) as [r1|] eqn:Ex; [|discriminate].
+    destruct (eat_ci_inv _ _ _ Ex) as (c2 & E2 & Hf). intros H.
+    apply (Hnum 16%N 12%N 120%N _ _ _ _ _ _ r1 c2 E2 Hf (M_dig16 s) 35%N ltac:(cbn; auto) def_hex_val H).
+  Qed.
+
+  (* ---- the alternation loop ---- *)
+  Definition AltTail (i j : nat) : Prop :=
+    exists k1 k2 n m, Mg (ERef 25) i k1 /\ MIg cat_item n k1 k2 /\ MIg alt_item m k2 j.
+
+  Lemma AltTail_alt i j : AltTail i j -> Mg (ERef 22) i j.
+  Proof.
+    intros (k1 & k2 & n & m & H1 & H2 & H3).
+    apply (Mref s _ _ _ _ _ def_alternation). apply (Mcat2 s _ _ i k2); [|apply (Mstar s _ _ _ _ _ H3)].
+    apply (Mref s _ _ _ _ _ def_concatenation). apply (Mcat2 s _ _ i k1 _ H1). apply (Mstar s _ _ _ _ _ H2).
+  Qed.
+
+  Definition ALTF (f : nat) : Prop := forall alts cur i e r, i <= length s ->
+    alt_f f alts cur (sk i) = Some (e, r) ->
+    exists j j' n, r = sk j' /\ AltTail i j /\ MIg (ERef 17) n j j'.
+
+  Lemma bracket_M f o c rr nm a b : ALTF f ->
+    G rr = mkrule nm (ECat [ELit false [o]; ERep a 0 None (ERef 17); ERef 22; ERep b 0 None (ERef 17); ELit false [c]]) ->
+    forall i r0 e1 r1 r2, sk i = o :: r0 -> alt_f f [] [] (c_wsps f r0) = Some (e1, r1) -> eat c r1 = Some r2 ->
+    exists j, r2 = sk j /\ Mg (ERef rr) i j.
+  Proof.
+    intros IH HG i r0 e1 r1 r2 E Ha Ec. destruct (sk_cons s i _ _ E) as (_ & P0 & L0).
+    rewrite P0 in Ha. destruct (c_wsps_M s f (i + 1) ltac:(lia)) as (q & n1 & Eq & I1 & _). rewrite Eq in Ha.
+    pose proof (proj2 (MI_bounds G _ _ _ _ _ I1)) as Hq.
+    destruct (IH _ _ _ _ _ Hq Ha) as (j & j' & n2 & -> & HT & I2).
+    apply eat_inv in Ec. destruct (sk_cons s j' _ _ Ec) as (_ & P3 & _).
+    exists (j' + 1). split; [exact P3|]. apply (Mref s _ _ _ _ _ HG).
+    apply (Mcat5 s _ _ _ _ _ i (i + 1) q j j').
+    - apply (M_sym s _ _ _ E).
+    - apply (Mstar s _ _ _ _ _ I1).
+    - apply AltTail_alt. exact HT.
+    - apply (Mstar s _ _ _ _ _ I2).
+    - apply (M_sym s _ _ _ Ec).
+  Qed.
+
+  Lemma read_elem_M f : ALTF f -> forall i e r, read_elem f (sk i) = Some (e, r) ->
+    exists j, r = sk j /\ Mg (ERef 27) i j.
+  Proof.
+    intros IH i e r. unfold read_elem. destruct (eat (ch "(") (sk i)) as [r0|] eqn:E1.
+    - apply eat_inv in E1. destruct (alt_f f [] [] (c_wsps f r0)) as [[e1 r1]|] eqn:Ea; [|discriminate].
+      destruct (eat (ch ")") r1) as [r2|] eqn:E2; [|discriminate]. intros H. injection H as _ <-.
+      destruct (bracket_M f _ _ 28%N _ _ _ IH def_group i r0 e1 r1 r2 E1 Ea E2) as (j & -> & HM).
+      exists j. split; [reflexivity|]. apply (M_element (ERef 28)); [cbn; auto|exact HM].
+    - destruct (eat (ch "[") (sk i)) as [r0|] eqn:E1'; [|apply terminal_M].
+      apply eat_inv in E1'. destruct (alt_f f [] [] (c_wsps f r0)) as [[e1 r1]|] eqn:Ea; [|discriminate].
+      destruct (eat (ch "]") r1) as [r2|] eqn:E2; [|discriminate]. intros H. injection H as _ <-.
+      destruct (bracket_M f _ _ 29%N _ _ _ IH def_option i r0 e1 r1 r2 E1' Ea E2) as (j & -> & HM).
+      exists j. split; [reflexivity|]. apply (M_element (ERef 29)); [cbn; auto|exact HM].
+  Qed.
+
+  Lemma read_rep_M f : ALTF f -> forall i x r, i <= length s -> read_rep f (sk i) = Some (x, r) ->
+    exists j, r = sk j /\ Mg (ERef 25) i j.
+  Proof.
+    intros IH i x r Hi. unfold read_rep. destruct (read_repeat (sk i)) as [rp s1] eqn:Er.
+    destruct (read_repeat_M s i rp s1 Hi Er) as (i1 & -> & Hrp).
+    destruct (read_elem f (sk i1)) as [[e s2]|] eqn:Ee; [|discriminate]. intros H. injection H as _ <-.
+    destruct (read_elem_M f IH i1 e s2 Ee) as (j & -> & HM). exists j. split; [reflexivity|].
+    apply (Mref s _ _ _ _ _ def_repetition). destruct rp as [p|].
+    - apply (Mcat2 s _ _ i i1); [apply Mopt1; exact Hrp|exact HM].
+    - subst i1. apply (Mcat2 s _ _ i i); [apply Mopt0; exact Hi|exact HM].
+  Qed.
+
+  Lemma alt_f_M : forall f, ALTF f.
+  Proof.
+    induction f as [|f IH]; intros alts cur i e r Hi H; [discriminate|].
+    rewrite alt_f_S in H. destruct (read_rep f (sk i)) as [[x s2]|] eqn:Er; [|discriminate].
+    destruct (read_rep_M f IH i x s2 Hi Er) as (k1 & -> & HR).
+    pose proof (proj2 (M_bounds G _ _ _ _ HR)) as Hk1.
+    unfold post in H. destruct (c_wsps_M s f k1 Hk1) as (q & n1 & Eq & I1 & Hn1). rewrite Eq in H.
+    pose proof (proj2 (MI_bounds G _ _ _ _ _ I1)) as Hq.
+    destruct (eat (ch "/") (sk q)) as [r0|] eqn:E1.
+    - (* "/": a new concatenation *)
+      apply eat_inv in E1. destruct (sk_cons s q _ _ E1) as (_ & P1 & L1). rewrite P1 in H.
+      destruct (c_wsps_M s f (q + 1) ltac:(lia)) as (q2 & n2 & Eq2 & I2 & _). rewrite Eq2 in H.
+      pose proof (proj2 (MI_bounds G _ _ _ _ _ I2)) as Hq2.
+      destruct (IH _ _ _ _ _ Hq2 H) as (j & j' & n3 & -> & (a1 & a2 & n & m & R1 & C1 & A1) & I3).
+      exists j, j', n3. split; [reflexivity|]. split; [|exact I3].
+      exists k1, k1, 0, (S m). split; [exact HR|]. split; [constructor; exact Hk1|].
+      econstructor; [|exact A1]. unfold alt_item. apply (Mcat4 s _ _ _ _ k1 q (q + 1) q2).
+      + apply (Mstar s _ _ _ _ _ I1).
+      + apply (M_sym s _ _ _ E1).
+      + apply (Mstar s _ _ _ _ _ I2).
+      + apply (Mref s _ _ _ _ _ def_concatenation). apply (Mcat2 s _ _ q2 a1 _ R1). apply (Mstar s _ _ _ _ _ C1).
+    - destruct (starts_repetition (sk q) && is_some (c_wsp (sk k1))) eqn:Ec.
+      + (* white space, then one more repetition of the same concatenation *)
+        apply andb_true_iff in Ec. destruct Ec as [_ Ec].
+        destruct f as [|f']; [discriminate|].
+        destruct (IH _ _ _ _ _ Hq H) as (j & j' & n3 & -> & (a1 & a2 & n & m & R1 & C1 & A1) & I3).
+        exists j, j', n3. split; [reflexivity|]. split; [|exact I3].
+        exists k1, a2, (S n), m. split; [exact HR|]. split; [|exact A1].
+        econstructor; [|exact C1]. unfold cat_item. apply (Mcat2 s _ _ k1 q a1); [|exact R1].
+        apply (Mplus s _ _ _ _ _ I1). apply Hn1; [exact Ec|lia].
+      + (* the end of the alternation *)
+        injection H as _ <-. exists k1, q, n1. split; [reflexivity|]. split; [|exact I1].
+        exists k1, k1, 0, 0. split; [exact HR|]. split; constructor; exact Hk1.
+  Qed.
+
+  (* ---- rule ---- *)
+  Lemma rule_f_M f i a r : i <= length s -> rule_f f (sk i) = Some (a, r) ->
+    exists j, r = sk j /\ Mg (ERef 16) i j /\ i < j.
+  Proof.
+    intros Hi. unfold rule_f. destruct (read_name (sk i)) as [[n s1]|] eqn:En; [|discriminate].
+    assert (exists j1, s1 = sk j1 /\ Mg (ERef 19) i j1 /\ i < j1) as (j1 & -> & HN & Lt1).
+    { destruct (sk i) as [|c r0] eqn:E; [discriminate|]. cbn [read_name] in En.
+      destruct (is_alpha c) eqn:Ha; [|discriminate]. destruct (span is_namechar r0) as [n0 r1] eqn:Es.
+      injection En as _ <-. destruct (span_split _ _ _ _ Es) as [Ev F].
+      destruct (sk_cons s i _ _ E) as (_ & P0 & L0). rewrite P0 in Ev.
+      pose proof (MI_class s _ _ (M_namechar s) n0 (i + 1) r1 Ev F ltac:(lia)) as HI.
+      exists (i + 1 + length n0). split; [apply (sk_app_pos s _ _ _ Ev)|]. split; [|lia].
+      apply (Mref s _ _ _ _ _ def_rulename).
+      apply (Mcat2 s _ _ i (i + 1)); [apply (M_ALPHA s i c r0 E Ha)|apply (Mstar s _ _ _ _ _ HI)]. }
+    pose proof (proj2 (M_bounds G _ _ _ _ HN)) as Hj1.
+    destruct (c_wsps_M s f j1 Hj1) as (q & n1 & Eq & I1 & _). rewrite Eq.
+    destruct (eat (ch "=") (sk q)) as [s2|] eqn:E2; [|discriminate]. apply eat_inv in E2.
+    destruct (sk_cons s q _ _ E2) as (_ & P2 & L2).
+    assert (exists q1 incr, (match eat (ch "/") s2 with Some r' => (true, r') | None => (false, s2) end) = (incr, sk q1) /\
+              Mg (EAlt false [ELit false [61%N; 47%N]; ELit false [61%N]]) q q1 /\ q1 <= length s)
+      as (q1 & incr & -> & HO & Hq1).
+    { destruct (eat (ch "/") s2) as [r'|] eqn:E3.
+      - apply eat_inv in E3. rewrite E3 in E2, P2. destruct (sk_cons s (q + 1) _ _ (eq_sym P2)) as (_ & P3 & L3).
+        exists (q + 1 + 1), true. rewrite P3. split; [reflexivity|]. split; [|lia].
+        eapply M_alt; [left; reflexivity|]. replace (q + 1 + 1) with (q + 2) by lia.
+        apply (M_chr2 s _ _ q _ _ _ E2); reflexivity.
+      - exists (q + 1), false. rewrite P2. split; [reflexivity|]. split; [|lia].
+        eapply M_alt; [right; left; reflexivity|]. apply (M_sym s _ _ _ E2). }
+    cbv iota beta.
+    destruct (c_wsps_M s f q1 Hq1) as (q2 & n2 & Eq2 & I2 & _). rewrite Eq2.
+    pose proof (proj2 (MI_bounds G _ _ _ _ _ I2)) as Hq2.
+    destruct (alt_f f [] [] (sk q2)) as [[e s4]|] eqn:Ea; [|discriminate].
+    destruct (alt_f_M f _ _ _ _ _ Hq2 Ea) as (j & j' & n3 & -> & HT & I3).
+    destruct (c_nl (sk j')) as [s5|] eqn:Ec; [|discriminate].
+    destruct (c_nl_M s j' s5 Ec) as (j5 & -> & HC & _).
+    intros H. injection H as _ <-. exists j5. split; [reflexivity|].
+    assert (HDa : Mg (ERef 20) j1 q2).
+    { apply (Mref s _ _ _ _ _ def_defined_as). apply (Mcat3 s _ _ _ j1 q q1).
+      - apply (Mstar s _ _ _ _ _ I1).
+      - exact HO.
+      - apply (Mstar s _ _ _ _ _ I2). }
+    assert (HEl : Mg (ERef 21) q2 j').
+    { apply (Mref s _ _ _ _ _ def_elements). apply (Mcat2 s _ _ q2 j).
+      - apply AltTail_alt. exact HT.
+      - apply (Mstar s _ _ _ _ _ I3). }
+    split; [apply (Mref s _ _ _ _ _ def_rule); apply (Mcat4 s _ _ _ _ i j1 q2 j' j5 HN HDa HEl HC)|].
+    pose proof (M_le _ _ _ HDa). pose proof (M_le _ _ _ HEl). pose proof (M_le _ _ _ HC). lia.
+  Qed.
+End Replay2.
+
+Section Replay3.
+  Variable s : str.
+  Notation sk := (sk s).
+  Notation Mg := (M G s).
+  Notation MIg := (MI G s).
+
+  Lemma rulelist_f_M : forall f acc i rs, i <= length s -> rulelist_f f acc (sk i) = Some rs ->
+    exists n, MIg entry n i (length s) /\ (i < length s -> 1 <= n).
+  Proof.
+    induction f as [|f IH]; intros acc i rs Hi H.
+    - destruct (sk i) as [|c r0] eqn:E; [|discriminate].
+      pose proof (sk_len s i) as L. rewrite E in L. cbn [length] in L.
+      assert (i = length s) by lia. subst i. exists 0. split; [constructor; lia|lia].
+    - destruct (sk i) as [|c r0] eqn:E.
+      + pose proof (sk_len s i) as L. rewrite E in L. cbn [length] in L.
+        assert (i = length s) by lia. subst i. exists 0. split; [constructor; lia|lia].
+      + cbn [rulelist_f] in H. rewrite <- E in H. destruct (is_alpha c) eqn:Ha.
+        * destruct (read_rule (sk i)) as [[a s1]|] eqn:Er; [|discriminate]. unfold read_rule in Er.
+          destruct (rule_f_M s _ i a s1 Hi Er) as (j & -> & HM & Lt).
+          destruct (IH _ _ _ (proj2 (M_bounds G _ _ _ _ HM)) H) as (n & HI & _).
+          exists (S n). split; [|lia]. econstructor; [|exact HI].
+          unfold entry. eapply M_alt; [left; reflexivity|exact HM].
+        * destruct (c_wsps_M s (S f) i Hi) as (q & n1 & Eq & I1 & _). rewrite Eq in H.
+          destruct (c_nl (sk q)) as [s1|] eqn:Ec; [|discriminate].
+          destruct (c_nl_M s q s1 Ec) as (j & -> & HC & _).
+          destruct (IH _ _ _ (proj2 (M_bounds G _ _ _ _ HC)) H) as (n & HI & _).
+          exists (S n). split; [|lia]. econstructor; [|exact HI].
+          unfold entry. eapply M_alt; [right; left; reflexivity|].
+          apply (Mcat2 s _ _ i q j); [apply (Mstar s _ _ _ _ _ I1)|exact HC].
+  Qed.
+End Replay3.
+
+(* ------------------------------------------------------------------------------------------ *)
+(** * What the spec reader accepts is derivable *)
+Theorem reader_M_rulelist : forall s rs, read_rulelist s = Some rs -> M G s (ERef 39) 0 (length s).
+Proof.
+  intros s rs H. unfold read_rulelist in H. destruct s as [|c r] eqn:Es; [discriminate|]. rewrite <- Es in *.
+  change (rulelist_f (length s) [] s) with (rulelist_f (length s) [] (sk s 0)) in H.
+  destruct (rulelist_f_M s _ _ 0 rs (Nat.le_0_l _) H) as (n & HI & Hn).
+  apply (Mref s _ _ _ _ _ def_rulelist). fold entry. apply (Mplus s _ _ _ _ _ HI). apply Hn.
+  rewrite Es. cbn. lia.
+Qed.
+
+Theorem reader_M_rule : forall s a, read_rule s = Some (a, []) -> M G s (ERef 16) 0 (length s).
+Proof.
+  intros s a H. unfold read_rule in H.
+  change (rule_f (S (length s)) s) with (rule_f (S (length s)) (sk s 0)) in H.
+  destruct (rule_f_M s _ 0 a [] (Nat.le_0_l _) H) as (j & Ej & HM & _).
+  pose proof (sk_len s j) as L. rewrite <- Ej in L. cbn [length] in L.
+  pose proof (proj2 (M_bounds G _ _ _ _ HM)) as Hj. assert (j = length s) by lia. subst j. exact HM.
+Qed.
+
+Theorem reader_M_elements : forall s a, read_elements s = Some (a, []) -> M G s (ERef 21) 0 (length s).
+Proof.
+  intros s a H. unfold read_elements in H.
+  change (alt_f (S (length s)) [] [] s) with (alt_f (S (length s)) [] [] (sk s 0)) in H.
+  destruct (alt_f_M s _ _ _ _ _ _ (Nat.le_0_l _) H) as (j & j' & n & Ej & HT & HI).
+  pose proof (sk_len s j') as L. rewrite <- Ej in L. cbn [length] in L.
+  pose proof (proj2 (MI_bounds G _ _ _ _ _ HI)) as Hj. assert (j' = length s) by lia. subst j'.
+  apply (Mref s _ _ _ _ _ def_elements). apply (Mcat2 s _ _ 0 j).
+  - apply AltTail_alt. exact HT.
+  - apply (Mstar s _ _ _ _ _ HI).
+Qed.
+
+(* with trees, on the table itself *)
+Lemma M_tree s r nm d : G r = mkrule nm d -> M G s (ERef r) 0 (length s) ->
+  exists t, D G s (ERef r) 0 [t] (length s).
+Proof.
+  intros HG H. destruct (M_D G s _ _ _ H) as [ns HD].
+  destruct (D_ref_inv s _ _ _ _ _ _ HG HD) as (ch0 & -> & _). eauto.
+Qed.
+
+Theorem reader_has_derivation : forall s rs, read_rulelist s = Some rs ->
+  exists t, D (of_list l_meta) s (ERef (rid_meta "rulelist")) 0 [t] (length s).
+Proof.
+  intros s rs H. rewrite id_rulelist. exact (M_tree s _ _ _ def_rulelist (reader_M_rulelist s rs H)).
+Qed.
+Theorem reader_has_derivation_rule : forall s a, read_rule s = Some (a, []) ->
+  exists t, D (of_list l_meta) s (ERef (rid_meta "rule")) 0 [t] (length s).
+Proof.
+  intros s a H. rewrite id_rule. exact (M_tree s _ _ _ def_rule (reader_M_rule s a H)).
+Qed.
+Theorem reader_has_derivation_elements : forall s a, read_elements s = Some (a, []) ->
+  exists t, D (of_list l_meta) s (ERef (rid_meta "elements")) 0 [t] (length s).
+Proof.
+  intros s a H. rewrite id_elements. exact (M_tree s _ _ _ def_elements (reader_M_elements s a H)).
+Qed.
+
+(* both directions together: the reader accepts exactly the derivable texts, with the derivation's syntax *)
+Theorem reader_iff_derivable : forall s rs,
+  read_rulelist s = Some rs <->
+  exists t, D (of_list l_meta) s (ERef (rid_meta "rulelist")) 0 [t] (length s) /\ arules_of (children t) = Some rs.
+Proof.
+  intros s rs. split.
+  - intros H. destruct (reader_has_derivation s rs H) as [t HD]. exists t. split; [exact HD|].
+    destruct (reader_agrees_with_every_derivation s t HD) as (rs' & A & R). congruence.
+  - intros (t & HD & A). destruct (reader_agrees_with_every_derivation s t HD) as (rs' & A' & R). congruence.
+Qed.
+
+Print Assumptions reader_has_derivation.
+Print Assumptions reader_has_derivation_rule.
+Print Assumptions reader_has_derivation_elements.
+Print Assumptions reader_iff_derivable.
